@@ -77,7 +77,12 @@ def h2_tokenizer(op):
     )
 
     if op["tok"] == "ac":
-        # another instance of the default tokenizer class (shares EXTRACTORS)
+        # another instance of the default tokenizer class (shares the EXTRACTORS
+        # objects), with the default list or with a caller-chosen one
+        if op.get("ext"):
+            idx = sorted(set(list(op["ext"]) + special_indices()), reverse=True)
+            exts = [EXTRACTORS[i] for i in idx if 0 <= i < len(EXTRACTORS)]
+            return AhocorasickTokenizer(extractors=exts), exts
         t = AhocorasickTokenizer()
         return t, t.extractors
     idx = sorted(set(list(op.get("ext", ())) + special_indices()))
